@@ -191,3 +191,178 @@ Qed.
 
 Lemma canon_n_inj a b : canon_n a = canon_n b -> a = b.
 Proof. intros H. rewrite <- (be2n_canon_n a), <- (be2n_canon_n b). now rewrite H. Qed.
+
+(* ---------- more facts about the canonical form ---------- *)
+Lemma be2n_upper_nonneg b r : b2n b < 128 -> be2n (b :: r) < 2 ^ (8 * nlen (b :: r) - 1).
+Proof.
+  intros Hb. rewrite be2n_cons. unfold nlen. cbn [length].
+  pose proof (be2n_lt r) as Hr. unfold nlen in Hr. rewrite pow256 in *.
+  replace (8 * N.of_nat (S (length r)) - 1) with (7 + 8 * N.of_nat (length r)) by lia.
+  rewrite N.pow_add_r. change (2 ^ 7) with 128. nia.
+Qed.
+
+Lemma canon_len_lower n : n <> 0 -> 2 ^ (8 * N.of_nat (canon_len n) - 9) <= n.
+Proof.
+  intros Hn. assert (Hpos : 0 < n) by lia.
+  pose proof (N.log2_spec n Hpos) as [Hlo _].
+  eapply N.le_trans; [|exact Hlo].
+  apply N.pow_le_mono_r; [lia|]. unfold canon_len. lia.
+Qed.
+
+Lemma canon_n_minimal n : is_minimal (canon_n n) = true.
+Proof.
+  unfold canon_n. destruct (N.eqb_spec n 0) as [->|Hn]; [reflexivity|].
+  pose proof (canon_n_nonneg n) as Hnn. pose proof (be2n_canon_n n) as Hv.
+  pose proof (canon_len_lower n Hn) as Hlow.
+  unfold canon_n in Hnn, Hv. destruct (N.eqb_spec n 0) as [|_]; [contradiction|].
+  pose proof (n2be_length (canon_len n) n) as Hlen.
+  destruct (n2be (canon_len n) n) as [|b r] eqn:E.
+  - cbn in Hv. congruence.
+  - cbn [is_minimal]. destruct r as [|c r'].
+    + destruct (N.eqb_spec (b2n b) 0) as [Hb0|]; [|reflexivity].
+      rewrite be2n_cons, Hb0 in Hv. change (be2n []) with 0 in Hv. lia.
+    + destruct (N.eqb_spec (b2n b) 0) as [Hb0|Hb0]; cbn [andb orb negb].
+      * destruct (N.ltb_spec (b2n c) 128) as [Hc|Hc]; [|destruct (N.eqb_spec (b2n b) 255); [lia|reflexivity]].
+        exfalso.
+        rewrite be2n_cons, Hb0, N.mul_0_l, N.add_0_l in Hv.
+        pose proof (be2n_upper_nonneg c r' Hc) as Hup. rewrite Hv in Hup.
+        unfold nlen in Hup. cbn [length] in Hlen, Hup. rewrite <- Hlen in Hlow.
+        replace (8 * N.of_nat (S (S (length r'))) - 9) with (8 * N.of_nat (S (length r')) - 1) in Hlow by lia.
+        lia.
+      * destruct (N.eqb_spec (b2n b) 255) as [Hff|]; [|reflexivity]. lia.
+Qed.
+
+(* length of the canonical form against a width *)
+Lemma canon_n_fits n k :
+  n < 256 ^ N.of_nat k ->
+  match canon_n n with
+  | [] => True
+  | b :: _ => (length (canon_n n) <= (if (b2n b =? 0)%N then S k else k))%nat
+  end.
+Proof.
+  intros Hk. pose proof (canon_n_minimal n) as Hm. pose proof (be2n_canon_n n) as Hv.
+  destruct (canon_n n) as [|b r] eqn:E; [exact I|].
+  destruct (N.eqb_spec (b2n b) 0) as [Hb0|Hb0].
+  - destruct r as [|c r'].
+    + cbn [length]. lia.
+    + cbn [is_minimal] in Hm. rewrite Hb0 in Hm. change (0 =? 0) with true in Hm. change (0 =? 255) with false in Hm.
+      cbn [andb orb] in Hm. destruct (N.ltb_spec (b2n c) 128) as [|Hc]; [discriminate|].
+      rewrite be2n_cons, Hb0, N.mul_0_l, N.add_0_l in Hv.
+      pose proof (be2n_lower c r' Hc) as Hl. rewrite Hv in Hl. unfold nlen in Hl. cbn [length] in *.
+      rewrite pow256 in Hk.
+      assert (8 * N.of_nat (S (length r')) - 1 < 8 * N.of_nat k).
+      { apply (N.pow_lt_mono_r_iff 2); [lia|]. eapply N.le_lt_trans; [exact Hl|exact Hk]. }
+      lia.
+  - rewrite be2n_cons in Hv. unfold nlen in Hv. cbn [length].
+    rewrite pow256 in Hk, Hv.
+    assert (2 ^ (8 * N.of_nat (length r)) <= n) by nia.
+    assert (8 * N.of_nat (length r) < 8 * N.of_nat k).
+    { apply (N.pow_lt_mono_r_iff 2); [lia|]. eapply N.le_lt_trans; [eassumption|exact Hk]. }
+    lia.
+Qed.
+
+(* ---------- characterisation of sanitize_uint ---------- *)
+Lemma sanitize_uint_ok_iff bs k n :
+  sanitize_uint bs k = SOk n <-> bs = canon_n n /\ n < 256 ^ N.of_nat k.
+Proof.
+  split.
+  - unfold sanitize_uint. destruct bs as [|b0 tl]; [intros [= <-]; split; [reflexivity|]|].
+    { apply N.neq_0_lt_0, N.pow_nonzero; lia. }
+    destruct (N.leb_spec 128 (b2n b0)) as [|Hb]; [discriminate|].
+    destruct tl as [|b1 tl'].
+    + destruct (N.eqb_spec (b2n b0) 0) as [|Hnz]; [discriminate|].
+      destruct (Nat.ltb_spec k (length [b0])) as [|Hlen]; [discriminate|].
+      intros [= <-]. split.
+      * symmetry. apply canon_n_unique; [cbn; destruct (N.eqb_spec (b2n b0) 0); [contradiction|reflexivity]|exact Hb].
+      * cbn [length] in Hlen. eapply N.lt_le_trans; [apply be2n_lt|]. unfold nlen. cbn [length].
+        apply N.pow_le_mono_r; lia.
+    + destruct ((b2n b0 =? 0) && (b2n b1 <? 128)) eqn:Ered; [discriminate|].
+      destruct (Nat.ltb_spec (if b2n b0 =? 0 then S k else k) (length (b0 :: b1 :: tl'))) as [|Hlen]; [discriminate|].
+      intros [= <-]. split.
+      * symmetry. apply canon_n_unique; [|exact Hb].
+        cbn [is_minimal]. rewrite Ered. cbn [orb].
+        destruct (N.eqb_spec (b2n b0) 255); [lia|reflexivity].
+      * destruct (N.eqb_spec (b2n b0) 0) as [Hb0|Hb0].
+        -- rewrite be2n_cons, Hb0, N.mul_0_l, N.add_0_l.
+           eapply N.lt_le_trans; [apply be2n_lt|]. unfold nlen. cbn [length] in *.
+           apply N.pow_le_mono_r; lia.
+        -- eapply N.lt_le_trans; [apply be2n_lt|]. unfold nlen.
+           apply N.pow_le_mono_r; lia.
+  - intros [-> Hk].
+    pose proof (canon_n_nonneg n) as Hnn. pose proof (canon_n_minimal n) as Hm.
+    pose proof (canon_n_fits n k Hk) as Hf. pose proof (be2n_canon_n n) as Hv.
+    unfold sanitize_uint. destruct (canon_n n) as [|b0 tl] eqn:E.
+    + cbn in Hv. now subst n.
+    + destruct (N.leb_spec 128 (b2n b0)) as [|_]; [lia|].
+      destruct tl as [|b1 tl'].
+      * cbn [is_minimal] in Hm. destruct (N.eqb_spec (b2n b0) 0) as [|Hnz]; [discriminate|].
+        destruct (Nat.ltb_spec k (length [b0])) as [Hlt|_]; [cbn [length] in *; lia|].
+        now rewrite Hv.
+      * cbn [is_minimal] in Hm.
+        destruct ((b2n b0 =? 0) && (b2n b1 <? 128)); [cbn in Hm; discriminate|].
+        destruct (Nat.ltb_spec (if b2n b0 =? 0 then S k else k) (length (b0 :: b1 :: tl'))) as [Hlt|_]; [lia|].
+        now rewrite Hv.
+Qed.
+
+Lemma sanitize_uint_neg_iff bs k :
+  sanitize_uint bs k = SNegOverflow <-> match bs with b :: _ => 128 <= b2n b | [] => False end.
+Proof.
+  unfold sanitize_uint. destruct bs as [|b0 tl]; [split; [discriminate|contradiction]|].
+  destruct (N.leb_spec 128 (b2n b0)) as [H|H]; [tauto|].
+  split; [|lia]. destruct tl as [|b1 tl'].
+  - destruct (b2n b0 =? 0); [discriminate|]. destruct (Nat.ltb _ _); discriminate.
+  - destruct ((b2n b0 =? 0) && (b2n b1 <? 128)); [discriminate|]. destruct (Nat.ltb _ _); discriminate.
+Qed.
+
+(* redundant leading zero bytes are an error, in every width *)
+Lemma sanitize_uint_err_iff bs k :
+  sanitize_uint bs k = SErr <->
+  match bs with
+  | [b] => b2n b = 0
+  | b0 :: b1 :: _ => b2n b0 = 0 /\ b2n b1 < 128
+  | [] => False
+  end.
+Proof.
+  unfold sanitize_uint. destruct bs as [|b0 tl]; [split; [discriminate|contradiction]|].
+  destruct (N.leb_spec 128 (b2n b0)) as [H|H].
+  - split; [discriminate|]. destruct tl; intros; lia.
+  - destruct tl as [|b1 tl'].
+    + destruct (N.eqb_spec (b2n b0) 0) as [E|E]; [tauto|].
+      split; [|contradiction]. destruct (Nat.ltb _ _); discriminate.
+    + destruct (N.eqb_spec (b2n b0) 0) as [E|E]; destruct (N.ltb_spec (b2n b1) 128) as [F|F]; cbn [andb];
+        try tauto; (split; [destruct (Nat.ltb _ _); discriminate|lia]).
+Qed.
+
+(* everything else that is too wide is a positive overflow: never truncated *)
+Lemma sanitize_uint_pos_iff bs k :
+  sanitize_uint bs k = SPosOverflow <->
+  exists n, bs = canon_n n /\ 256 ^ N.of_nat k <= n.
+Proof.
+  split.
+  - intros Hs.
+    assert (Hnn : match bs with b :: _ => b2n b < 128 | [] => True end).
+    { destruct bs as [|b r]; [exact I|].
+      destruct (N.lt_ge_cases (b2n b) 128) as [|Hge]; [assumption|].
+      assert (sanitize_uint (b :: r) k = SNegOverflow) by (apply sanitize_uint_neg_iff; exact Hge). congruence. }
+    assert (Hm : is_minimal bs = true).
+    { destruct bs as [|b0 [|b1 tl]]; [reflexivity| |].
+      - cbn. destruct (N.eqb_spec (b2n b0) 0) as [E|]; [|reflexivity].
+        assert (sanitize_uint [b0] k = SErr) by (apply sanitize_uint_err_iff; exact E). congruence.
+      - cbn [is_minimal]. destruct (N.eqb_spec (b2n b0) 0) as [E|E]; destruct (N.ltb_spec (b2n b1) 128) as [F|F]; cbn [andb orb negb];
+          try (destruct (N.eqb_spec (b2n b0) 255); [lia|reflexivity]).
+        assert (sanitize_uint (b0 :: b1 :: tl) k = SErr) by (apply sanitize_uint_err_iff; split; assumption). congruence. }
+    exists (be2n bs). split; [symmetry; apply canon_n_unique; assumption|].
+    destruct (N.le_gt_cases (256 ^ N.of_nat k) (be2n bs)) as [|Hlt]; [assumption|].
+    assert (sanitize_uint bs k = SOk (be2n bs)).
+    { apply sanitize_uint_ok_iff. split; [symmetry; apply canon_n_unique; assumption|exact Hlt]. }
+    congruence.
+  - intros [n [-> Hn]].
+    destruct (sanitize_uint (canon_n n) k) eqn:E; [| reflexivity | |].
+    + apply sanitize_uint_ok_iff in E. destruct E as [E1 E2]. apply canon_n_inj in E1. subst. lia.
+    + apply sanitize_uint_neg_iff in E. pose proof (canon_n_nonneg n). destruct (canon_n n); [contradiction|lia].
+    + apply sanitize_uint_err_iff in E. pose proof (canon_n_minimal n) as Hm.
+      destruct (canon_n n) as [|b0 [|b1 tl]]; [contradiction| |].
+      * cbn in Hm. rewrite E in Hm. discriminate.
+      * destruct E as [E1 E2]. cbn [is_minimal] in Hm. rewrite E1 in Hm.
+        destruct (N.ltb_spec (b2n b1) 128); [cbn in Hm; discriminate|lia].
+Qed.
